@@ -99,6 +99,20 @@ def kinds_released(fn, nodes=None):
         name = call_name(n) or ""
         if name in REL:
             kinds.add(REL[name])
+        elif "." in name and isinstance(n.func, ast.Attribute) and isinstance(n.func.value, ast.Name):
+            # `for source, trig in ((Event, ..), (Mqtt, ..)): source.notify_del(..)`: the call is made on each source of the literal table
+            var, meth = n.func.value.id, n.func.attr
+            p_ = getattr(n, "_parent", None)
+            while p_ is not None and not isinstance(p_, (ast.FunctionDef, ast.AsyncFunctionDef)):
+                if isinstance(p_, ast.For) and isinstance(p_.iter, (ast.Tuple, ast.List)):
+                    tg = p_.target
+                    idx = 0 if isinstance(tg, ast.Name) and tg.id == var else next((i for i, e in enumerate(getattr(tg, "elts", ())) if isinstance(e, ast.Name) and e.id == var), None)
+                    if idx is not None:
+                        for e in p_.iter.elts:
+                            src = e if isinstance(tg, ast.Name) else (e.elts[idx] if isinstance(e, (ast.Tuple, ast.List)) and idx < len(e.elts) else None)
+                            if src is not None and f"{norm(src)}.{meth}" in REL:
+                                kinds.add(REL[f"{norm(src)}.{meth}"])
+                p_ = getattr(p_, "_parent", None)
         from ..repo import expand_locals
         efn = enclosing_func(n)
 
